@@ -12,7 +12,8 @@ EXTENDS KvEval
 
 CONSTANTS Bug_LiteralLeft,     \* literal-on-the-left comparison planned as if the key were on the left
           Bug_DisjointUnion,   \* union of disjoint ranges takes mismatched bounds instead of the hull
-          Bug_NilInBounded     \* inRange compares a nil (unbounded) endpoint as the empty string
+          Bug_NilInBounded,    \* inRange compares a nil (unbounded) endpoint as the empty string
+          Bug_NilNilRange      \* prefix | open-start range yields RANGE[nil, nil] instead of FULL
 
 NIL == <<-1>>                  \* "nil" bound (real byte strings contain codes >= 0 only)
 B(x) == IF x = NIL THEN <<>> ELSE x      \* bytes.Compare treats nil as empty
@@ -160,14 +161,16 @@ IntersectPrefixRange(p, r) ==
   ELSE IF re # NIL /\ Cmp(re, ps) < 0 THEN EMPTY
   ELSE IF rs # NIL /\ Cmp(ps, rs) < 0 THEN EMPTY
   ELSE FULL
+\* a range from rs with no end; with no start either it is a full scan (never RANGE[nil, nil])
+OpenFrom(rs) == IF rs = NIL /\ ~Bug_NilNilRange THEN FULL ELSE RANGE(rs, NIL)
 UnionPrefixRange(p, r) ==
   LET ps == p.keys[1]  rs == r.keys[1]  re == r.keys[2] IN
   IF inRange(rs, re, ps, FALSE) THEN
-     (IF re # NIL /\ HasPrefix(re, ps) THEN RANGE(rs, NIL) ELSE r)
+     (IF re # NIL /\ HasPrefix(re, ps) THEN OpenFrom(rs) ELSE r)
   ELSE IF rs # NIL /\ Cmp(ps, rs) < 0 /\ ~HasPrefix(rs, ps) THEN (IF ps = re THEN MGET(<<ps>>) ELSE RANGE(ps, re))
   ELSE IF rs # NIL /\ re # NIL /\ HasPrefix(rs, ps) /\ ~HasPrefix(re, ps) THEN (IF ps = re THEN MGET(<<ps>>) ELSE RANGE(ps, re))
   ELSE IF rs # NIL /\ re # NIL /\ HasPrefix(rs, ps) /\ HasPrefix(re, ps) THEN p
-  ELSE IF re # NIL /\ Cmp(re, ps) < 0 THEN RANGE(rs, NIL)
+  ELSE IF re # NIL /\ Cmp(re, ps) < 0 THEN OpenFrom(rs)
   ELSE FULL
 
 AndST(l, r) ==
